@@ -84,7 +84,7 @@ func ApplyFilter(name string, v interface{}) (interface{}, error) {
 			return name, nil
 		}
 		return nil, fmt.Errorf("%s: unsupported %s", name, typeName(v))
-	default: // identity, rejects falsy values
+	default: // identity, rejects falsy values (null, false, "", zero)
 		switch t := v.(type) {
 		case nil:
 			return nil, fmt.Errorf("%s: falsy null", name)
@@ -95,6 +95,15 @@ func ApplyFilter(name string, v interface{}) (interface{}, error) {
 		case string:
 			if t == "" {
 				return nil, fmt.Errorf("%s: falsy empty string", name)
+			}
+		case float64:
+			if t == 0 {
+				return nil, fmt.Errorf("%s: falsy zero", name)
+			}
+		case json.Number:
+			// a number of a document decoded with UseNumber: zero in any spelling ("0", "-0.0", "0e5")
+			if f, err := t.Float64(); err == nil && f == 0 {
+				return nil, fmt.Errorf("%s: falsy zero", name)
 			}
 		}
 		return v, nil
